@@ -5,6 +5,9 @@ import Lemmas.TraceSync
 import Lemmas.LogEntry
 import Lemmas.LogLine
 import Lemmas.LogFanout
+import Lemmas.LogNest
+import Lemmas.LogTree
+import Lemmas.LogNestErrs
 /-! # C13 — log handlers deliver each record whole, once, to every sink
 
 Property theorems only.  The definitions (`TL.render`, `TL.deliver`, `TL.withGroup`, `TL.withAttrs`, `TL.Buf.*`,
@@ -189,6 +192,51 @@ example :
     names ((a.1.derive p.2 (.grp [98])).1.view a.2) = [[112], [97]] := by
   decide
 
+/-! ### derivation TREES (siblings, cousins, any order of derivations)
+
+`runD ops` replays a history of derivations — each one from ANY handler made so far — with the code's `Store.derive`;
+`paths ops` computes, without any store, the entries on the path from the root to every handler. -/
+
+/-- "WithAttrs/WithGroup never affecting the parent handler", for every derivation TREE: after any history of
+    derivations, from any handlers, in any order, every handler sees through its slice exactly the entries on the path
+    from the root to it — whatever its siblings, its aunts and its cousins were given, before or after it was made -/
+theorem derivation_tree_view_is_path (ops : List DOp) (i : Nat) (s : Slice) (hi : (runD ops).hs[i]? = some s) :
+    (runD ops).store.view s = ((paths ops)[i]?).getD [] ∧ (runD ops).store.valid s :=
+  ⟨((runD_inv ops).2 i s hi).2, ((runD_inv ops).2 i s hi).1⟩
+
+/-- … hence what a handler PRINTS is a function of its path alone, and no later derivation (by anybody, from anybody)
+    changes a byte of it: handler `i` after the longer history `ops ++ more` renders every record as it did after `ops` -/
+theorem derivation_tree_later_derivations_change_nothing (ops more : List DOp) (i : Nat) (s s' : Slice)
+    (hi : (runD ops).hs[i]? = some s) (hi' : (runD (ops ++ more)).hs[i]? = some s')
+    (level : Int) (names : List (Int × Bytes)) (sink : Nat) (r : Record) :
+    TL.render (runD (ops ++ more)).store { level := level, names := names, sink := sink, list := s' } r =
+      TL.render (runD ops).store { level := level, names := names, sink := sink, list := s } r := by
+  have h1 := (derivation_tree_view_is_path ops i s hi).1
+  have h2 := (derivation_tree_view_is_path (ops ++ more) i s' hi').1
+  have hlt : i < (paths ops).length := by
+    rw [← (runD_inv ops).1]
+    rcases Nat.lt_or_ge i (runD ops).hs.length with h | h
+    · exact h
+    · rw [List.getElem?_eq_none h] at hi; cases hi
+  simp only [TL.render]
+  rw [h1, h2, paths_append ops more i hlt]
+
+/-- contrast (round 7, the shape of ind7-c13-b one level up): the same tree — parent `p`, its children `a` and `b`,
+    then `c` under `a` and `d` under `b` — derived with `append` in place of `make+copy`: `b` overwrites the entry of its
+    SIBLING `a`, and the COUSIN `c`, derived from `a` afterwards, inherits the wrong entry; with the code's derivation every
+    handler shows its own path -/
+example :
+    let names (l : List Entry) : List TL.Bytes := l.map fun e => match e with | .grp n => n | .attrs _ => []
+    let ops : List DOp := [⟨0, .grp [112]⟩, ⟨1, .grp [97]⟩, ⟨1, .grp [98]⟩, ⟨2, .grp [99]⟩, ⟨3, .grp [100]⟩]
+    let bad := runDAppend ops
+    let good := runD ops
+    bad.hs.map (fun s => names (bad.store.view s)) =
+      [[], [[112]], [[112], [98]], [[112], [98]], [[112], [98], [99]], [[112], [98], [100]]] ∧
+    good.hs.map (fun s => names (good.store.view s)) =
+      [[], [[112]], [[112], [97]], [[112], [98]], [[112], [97], [99]], [[112], [98], [100]]] ∧
+    (paths ops).map names = good.hs.map (fun s => names (good.store.view s)) := by
+  decide
+
 /-! ## tracelog: buffered mode (the bounded FIFO under every schedule of producer and consumer steps) -/
 
 /-- "buffered mode … never blocks": `Handle` on a buffered handler is a single step that returns nil whatever the
@@ -330,6 +378,21 @@ example :
     (runB cfg .fresh { s := init 1 } sched).sunk = [[65], [66]] := by
   decide
 
+/-- contrast (round 7, ind7-c13-a): the buffer comes from a `sync.Pool` shared by all goroutines and is put back by a
+    `defer` when `Handle` returns — while its bytes are still referenced from the channel.  TWO producers, two records
+    in flight: producer 0 logs "A" (queued, call returned, buffer back in the pool), producer 1 logs "C" into the same
+    buffer: the sink receives "C" twice and never "A" — also when "A" is already in the delivery goroutine's hands,
+    inside a `Write` that has not read the bytes yet.  With the code's fresh buffers both schedules deliver "A", "C". -/
+example :
+    let cfg : Config := { cap := 2, line := fun p i => some [65 + 2 * p + i] }
+    let queued : List Act := [.fmt 0, .send 0, .fmt 1, .send 1, .recv, .finish .ok, .recv, .finish .ok]
+    let inWrite : List Act := [.fmt 0, .send 0, .recv, .fmt 1, .send 1, .finish .ok, .recv, .finish .ok]
+    (runB cfg .shared { s := init 2 } queued).sunk = [[67], [67]] ∧
+    (runB cfg .shared { s := init 2 } inWrite).sunk = [[67], [67]] ∧
+    (runB cfg .fresh { s := init 2 } queued).sunk = [[65], [67]] ∧
+    (runB cfg .fresh { s := init 2 } inWrite).sunk = [[65], [67]] := by
+  decide
+
 /-- non-vacuity: three producers, capacity 1, a sink that never returns — the first record is in the delivery
     goroutine's hands, the second in the channel, the third is dropped having seen a full channel; all three calls
     have returned -/
@@ -455,6 +518,62 @@ example :
     f.rets = [(1, .nil), (3, .panic 3)] := by
   decide
 
+/-! ### nested fan-out handlers (`multilog.New(multilog.New(a, b), c)`): trees, executed by the driver as trees -/
+
+/-- NESTING IS TRANSPARENT, by theorem: `Handle` of a tree of fan-out handlers — at every level the loop asks each child
+    for `Enabled` (a fan-out child: "some child of mine is enabled") and calls `Handle` of the enabled ones, a fan-out
+    child running the same loop one level down — produces exactly the sink states, the `Write` calls (per sink, in
+    order) and the per-delivery outcomes (errors, panics, in order) of the FLAT loop `ML.handleTL` over the leaves; and
+    `Enabled` of the tree is "some leaf is enabled" -/
+theorem nested_handle_is_flat (σ : Store) (ss : ML.Sinks) (ks : List ML.Node) (r : Record) :
+    (ML.Node.fan ks).handle σ r { sinks := ss } = ML.handleTL σ ss { children := (ML.Node.fan ks).leaves } r ∧
+    ((ML.Node.fan ks).enabled r.level = true ↔ ∃ c ∈ (ML.Node.fan ks).leaves, TL.enabled c r.level = true) := by
+  refine ⟨?_, ?_⟩
+  · simp only [ML.Node.handle, ML.handleTL, ML.Node.leaves]
+    exact ML.handleKids_eq σ r ks _
+  · rw [ML.Node.enabled_eq]; simp
+
+/-- … so "hands each record exactly once to every child enabled for its level" holds for NESTED handlers down to the
+    `Write` calls: with synchronous sinks, exactly one whole `Write` per enabled LEAF, in left-to-right order of the
+    tree, nothing for a leaf below its level (even inside an enabled subtree), every delivery ending as its own sink
+    dictates -/
+theorem nested_fanout_writes_each_enabled_leaf_once (σ : Store) (ss : ML.Sinks) (ks : List ML.Node) (r : Record)
+    (hs : ML.AllSync ss) :
+    ((ML.Node.fan ks).handle σ r { sinks := ss }).writes =
+      ((ML.Node.fan ks).leaves.filter (TL.enabled · r.level)).map (fun c => (c.sink, TL.render σ c r)) ∧
+    ((ML.Node.fan ks).handle σ r { sinks := ss }).rets =
+      ((ML.Node.fan ks).leaves.filter (TL.enabled · r.level)).map (fun c => (c.sink, ML.syncRet ss c)) := by
+  rw [(nested_handle_is_flat σ ss ks r).1]
+  exact ⟨(fanout_writes_each_enabled_child_once σ ss _ r hs).1, (fanout_writes_each_enabled_child_once σ ss _ r hs).2.1⟩
+
+/-- "applies WithAttrs/WithGroup to all children", nested: deriving a tree derives exactly its leaves, left to right,
+    with the store threaded the same way as the flat `ML.withAttrs` / `ML.withGroup` — so `with_applies_to_all` and
+    `with_group_applies_to_all` speak about every leaf of a nested handler -/
+theorem nested_with_reaches_every_leaf (σ : Store) (n : ML.Node) (as : List Attr) (name : Bytes) (hn : name ≠ []) :
+    (n.withAttrs σ as).1 = (ML.withAttrs σ { children := n.leaves } as).1 ∧
+    (n.withAttrs σ as).2.leaves = (ML.withAttrs σ { children := n.leaves } as).2.1.children ∧
+    (n.withGroup σ name).1 = (ML.withGroup σ { children := n.leaves } name).1 ∧
+    (n.withGroup σ name).2.leaves = (ML.withGroup σ { children := n.leaves } name).2.1.children ∧
+    n.withGroup σ [] = (σ, n) := by
+  have ha := ML.Node.derive_eq (fun s c => TL.withAttrs s c as) n σ
+  have hg := ML.Node.derive_eq (fun s c => TL.withGroup s c name) n σ
+  refine ⟨?_, ?_, ?_, ?_, by simp [ML.Node.withGroup]⟩
+  · simpa [ML.Node.withAttrs, ML.withAttrs] using ha.1
+  · simpa [ML.Node.withAttrs, ML.withAttrs] using ha.2
+  · simpa [ML.Node.withGroup, ML.withGroup, hn] using hg.1
+  · simpa [ML.Node.withGroup, ML.withGroup, hn] using hg.2
+
+/-- non-vacuity: `multilog.New(multilog.New(a, b), multilog.New(d), c)` with `a`, `c` at level 0 and `b`, `d` at level 8,
+    a record at level 4: the inner handler over `a`, `b` is entered and delivers to `a` only, the one over `d` alone is
+    not even entered, `c` gets the record; `c`'s sink panics and it is still reported after `a`'s outcome -/
+example :
+    let mk (k : Nat) (lvl : Int) : TL.Handler := { level := lvl, names := [], sink := k, list := { arr := 0, len := 0 } }
+    let tree := ML.Node.fan [.fan [.leaf (mk 1 0), .leaf (mk 2 8)], .fan [.leaf (mk 4 8)], .leaf (mk 3 0)]
+    let f := tree.handle {} { level := 4, ts := [64], msg := [109], attrs := [] } { sinks := [(3, { mode := .panic })] }
+    f.writes = [(1, [87, 82, 78, 64, 109, 10]), (3, [87, 82, 78, 64, 109, 10])] ∧ f.rets = [(1, .nil), (3, .panic 3)] ∧
+    (ML.Node.fan [.leaf (mk 4 8)]).enabled 4 = false ∧ tree.enabled 4 = true := by
+  decide
+
 /-- "Handle returns nil exactly when every delivery succeeded" -/
 theorem fanout_nil_iff_all_ok (cs : List Child) (level : Int) :
     (ML.handle cs level).isNil = true ↔ ∀ c ∈ cs, c.enabled level = true → runChild c = none := by
@@ -523,6 +642,31 @@ theorem handle_nil_iff_heap (h : Errs.Heap) (rets : List Errs.Val) (hwf : Errs.W
     (ML.returned h rets ≠ .nilIface →
       ∃ r, ML.returned h rets = .ref r ∧ Errs.items (ML.accumulate h rets).1 r = rets.flatMap (Errs.argItems h)) :=
   ⟨ML.returned_nil_iff h rets hwf hids, ML.returned_ref h rets hwf hids⟩
+
+/-- NESTED fan-out handlers, "the children's errors otherwise": the outer handler's deliveries returned `a`, then an inner
+    fan-out handler ran (its own deliveries returned `ri`; its `Handle` returned `ML.returned h ri`: nil or ONE aggregate),
+    then the deliveries `b`.  What the outer `Handle` ends with holds exactly the errors of `a`, of the inner handler's
+    deliveries and of `b`, in that order — the items of the flat handler over all the leaves (`errs.Append` flattens an
+    aggregate argument) — and no error value that existed before is modified -/
+theorem nested_errors_flatten (h : Errs.Heap) (a ri b : List Errs.Val) (hwf : Errs.WF h)
+    (ha : ∀ id, Errs.Val.ref id ∈ a → id < h.size) (hri : ∀ id, Errs.Val.ref id ∈ ri → id < h.size)
+    (hb : ∀ id, Errs.Val.ref id ∈ b → id < h.size) :
+    Errs.argItems (ML.accumulate (ML.accumulate h ri).1 (a ++ [ML.returned h ri] ++ b)).1
+        (ML.accumulate (ML.accumulate h ri).1 (a ++ [ML.returned h ri] ++ b)).2 =
+      (a ++ ri ++ b).flatMap (Errs.argItems h) ∧
+    (∀ i, i < h.size → (ML.accumulate (ML.accumulate h ri).1 (a ++ [ML.returned h ri] ++ b)).1[i]? = h[i]?) :=
+  ML.nested_accumulate_flattens h a ri b hwf ha hri hb
+
+/-- non-vacuity: outer error, inner handler with one failing and one succeeding child, outer error: three errors; an
+    inner handler whose children all succeed hands back nil and contributes nothing -/
+example :
+    let ri : List Errs.Val := [.plain 2 "y", .typedNil]
+    let o := ML.accumulate (ML.accumulate #[] ri).1 [.plain 1 "x", ML.returned #[] ri, .plain 3 "z"]
+    (match o.2 with | .ref id => Errs.count o.1 id | _ => 0) = 3 ∧
+    ML.returned #[] [.typedNil, .nilIface] = .nilIface ∧
+    (match (ML.accumulate #[] [.plain 1 "x", ML.returned #[] [.typedNil, .nilIface]]).2 with
+      | .ref id => Errs.count (ML.accumulate #[] [.plain 1 "x", ML.returned #[] [.typedNil, .nilIface]]).1 id | _ => 0) = 1 := by
+  decide
 
 /-- which returned values count as "the delivery succeeded": the nil interface, a nil `*errs.Error` inside a non-nil
     interface (the shape of the original defect of this property), a nil pointer of a foreign error type, and an
